@@ -27,6 +27,21 @@ pub(crate) fn any_state() -> RunState {
     }
 }
 
+/// A machine whose registers, PC, CC and origin are arbitrary but whose memory is a zero-filled object: for harnesses
+/// that never look at memory (the 128 KB nondeterministic object costs ~3 M symex steps when it is not kept in the
+/// array theory, and the array theory does not go together with harnesses full of small heap strings).
+pub(crate) fn light_state() -> RunState {
+    let mem: Box<[u16; MEMORY_MAX]> = unsafe { Box::<[u16; MEMORY_MAX]>::new_zeroed().assume_init() };
+    RunState {
+        mem,
+        pc: kani::any(),
+        reg: kani::any(),
+        flag: any_flag(),
+        _psr: kani::any(),
+        orig: kani::any(),
+    }
+}
+
 pub(crate) fn snap(s: &RunState) -> Snap {
     Snap { r: s.reg, pc: s.pc, cc: s.flag as u8 }
 }
